@@ -10,7 +10,14 @@
    for row [r] is the event [CallbackFails s r e].  Rows are named by
    numbers; a number never mentioned before is a row just made by NewRow
    (no container, not in a table).  Separator rows and header rows are made
-   by the table and get their number from the event that makes them. *)
+   by the table and get their number from the event that makes them.
+
+   A second table [u] exists beside the table [t] under test (DESIGN 13.1
+   keeps a row in one table; the harness reaches past that edge, and so does
+   the model): [u.AddRow(r)] may take a row that is still outside [t] or one
+   that already belongs to [t].  AddRow reads [row.Errors()] - for a row of
+   [t] that is [t]'s whole list - hands it to its own container and re-points
+   [row.ErrorContainer]; [t]'s container is not touched. *)
 From Tab Require Export Model.ErrCont.
 
 (* every call of invokePropertyCallbacks in the repaired source *)
@@ -52,7 +59,11 @@ Inductive event :=
 | AddSeparator (r : nat)                           (* t.AddSeparator(); r names the new separator row *)
 | AddHeaders (r : nat)                             (* t.AddHeaders(...); r names the new header row *)
 | RowAddOnSeparator (r : nat) (e : errid)          (* r.Add(cell) on a separator: errors.New(...) = e *)
-| CallbackFails (s : site) (r : nat) (e : err).    (* a callback invoked at s, for row r, returned e *)
+| CallbackFails (s : site) (r : nat) (e : err)     (* a callback invoked at s, for row r, returned e *)
+| OtherAttachRow (r : nat)                         (* u.AddRow(r) on the OTHER table u: the error part *)
+| OtherAddError (e : err)                          (* u.AddError(e) *)
+| OtherRowAddError (r : nat) (e : err).            (* e handed to row r - r.AddError(e), or r / r.ErrorContainer as the
+                                                      errTaker of a callback - while r reports to the other table *)
 
 (* ---- the model proper *)
 
@@ -73,7 +84,8 @@ Definition site_taker (s : site) : taker :=
 Inductive rowec :=
 | ECNil                   (* nil *)
 | ECOwn (c : cont)        (* a container of the row's own *)
-| ECTable.                (* the table's container (same pointer) *)
+| ECTable                 (* the table's container (same pointer) *)
+| ECOther.                (* the other table's container (same pointer) *)
 
 Record rowst := mkRow { r_ec : rowec; r_in_table : bool; r_sep : bool }.
 (* what NewRow(), NewRowWithCapacity(n) and t.NewRowSizedFor() all return: no
@@ -83,11 +95,12 @@ Definition fresh_row := mkRow ECNil false false.
 Record tstate := mkT {
   t_ec : cont;                        (* t.ErrorContainer *)
   t_rows : list (nat * rowst);        (* row store, newest binding first *)
-  t_hdr : option nat                  (* t.headerRow *)
+  t_hdr : option nat;                 (* t.headerRow *)
+  t_oec : cont                        (* u.ErrorContainer, u the other table *)
 }.
 
-(* tabular.New() *)
-Definition init : tstate := mkT (create MNew) [] None.
+(* t := tabular.New(); u := tabular.New() *)
+Definition init : tstate := mkT (create MNew) [] None (create MNew).
 
 Fixpoint lookup (l : list (nat * rowst)) (r : nat) : rowst :=
   match l with
@@ -96,9 +109,10 @@ Fixpoint lookup (l : list (nat * rowst)) (r : nat) : rowst :=
   end.
 Definition get_row (st : tstate) (r : nat) : rowst := lookup (t_rows st) r.
 Definition set_row (st : tstate) (r : nat) (rs : rowst) : tstate :=
-  mkT (t_ec st) ((r, rs) :: t_rows st) (t_hdr st).
-Definition set_tec (st : tstate) (c : cont) : tstate := mkT c (t_rows st) (t_hdr st).
-Definition set_hdr (st : tstate) (r : nat) : tstate := mkT (t_ec st) (t_rows st) (Some r).
+  mkT (t_ec st) ((r, rs) :: t_rows st) (t_hdr st) (t_oec st).
+Definition set_tec (st : tstate) (c : cont) : tstate := mkT c (t_rows st) (t_hdr st) (t_oec st).
+Definition set_hdr (st : tstate) (r : nat) : tstate := mkT (t_ec st) (t_rows st) (Some r) (t_oec st).
+Definition set_oec (st : tstate) (c : cont) : tstate := mkT (t_ec st) (t_rows st) (t_hdr st) c.
 Definition with_ec (rs : rowst) (ec : rowec) : rowst := mkRow ec (r_in_table rs) (r_sep rs).
 
 (* t.AddError(e), promoted from the embedded *ErrorContainer *)
@@ -108,6 +122,9 @@ Definition table_add_error (st : tstate) (e : err) : tstate := set_tec st (add_e
 Definition table_add_error_list (st : tstate) (es : option (list err)) : tstate :=
   set_tec st (add_error_list (t_ec st) es).
 
+(* u.AddError(e) *)
+Definition other_add_error (st : tstate) (e : err) : tstate := set_oec st (add_error (t_oec st) e).
+
 (* r.ErrorContainer.AddError(e): through the embedded pointer as it stands *)
 Definition rowec_add_error (st : tstate) (r : nat) (e : err) : tstate :=
   let rs := get_row st r in
@@ -115,6 +132,7 @@ Definition rowec_add_error (st : tstate) (r : nat) (e : err) : tstate :=
   | ECNil => st                                               (* nil receiver: returns *)
   | ECOwn c => set_row st r (with_ec rs (ECOwn (add_error c e)))
   | ECTable => table_add_error st e
+  | ECOther => other_add_error st e
   end.
 
 (* func (r *Row) AddError(e error) *)
@@ -132,10 +150,14 @@ Definition row_errors (st : tstate) (r : nat) : option (list err) :=
   | ECNil => None
   | ECOwn c => errors c
   | ECTable => errors (t_ec st)
+  | ECOther => errors (t_oec st)
   end.
 
 (* t.Errors() *)
 Definition table_errors (st : tstate) : option (list err) := errors (t_ec st).
+
+(* u.Errors() *)
+Definition other_errors (st : tstate) : option (list err) := errors (t_oec st).
 
 (* AddRow, atable.go:84-96: swallow existing errors, divert new ones *)
 Definition table_add_row (st : tstate) (r : nat) : tstate :=
@@ -145,6 +167,17 @@ Definition table_add_row (st : tstate) (r : nat) : tstate :=
              | None => st
              end in
   set_row st1 r (mkRow ECTable true (r_sep (get_row st1 r))). (* row.ErrorContainer = t.ErrorContainer *)
+
+(* the same AddRow, called on the other table: es := row.Errors() is whatever
+   the row shows now (t's whole list for a row of t); t.ErrorContainer is
+   neither read through any other path nor written *)
+Definition other_add_row (st : tstate) (r : nat) : tstate :=
+  let es := row_errors st r in
+  let st1 := match es with
+             | Some l => set_oec st (add_error_list (t_oec st) (Some l))   (* if es != nil { u.AddErrorList(es) } *)
+             | None => st
+             end in
+  set_row st1 r (mkRow ECOther true (r_sep (get_row st1 r))).   (* row.ErrorContainer = u.ErrorContainer *)
 
 (* AddSeparator: sep.ErrorContainer = t.ErrorContainer *)
 Definition add_separator (st : tstate) (r : nat) : tstate := set_row st r (mkRow ECTable true true).
@@ -179,6 +212,9 @@ Definition step (st : tstate) (ev : event) : tstate :=
   | AddHeaders r => add_headers st r
   | RowAddOnSeparator r e => row_add_misuse st r e
   | CallbackFails s r e => invoke_fail st s r e
+  | OtherAttachRow r => other_add_row st r
+  | OtherAddError e => other_add_error st e
+  | OtherRowAddError r e => row_add_error st r e    (* r.ErrorContainer is non-nil here, so r and r.ErrorContainer take alike *)
   end.
 
 Definition run_from (st : tstate) (h : list event) : tstate := fold_left step h st.
